@@ -8,7 +8,7 @@ import re
 from ..cfg import build_cfg, calls_in, node_calls
 from ..core import Ctx, property_info, rule, share
 from ..model import AnalysisError, FuncInfo, const_str, walk_no_nested
-from ..q import Dispatch, L, call_name_of, control_deps, dep_texts, expand, raw_forms, dict_literals, flow_conditions, flows, A, asrc, enum_members, is_self_attr, kwarg, stores, unparse
+from ..q import Dispatch, L, call_name_of, control_deps, dep_texts, expand, family, raw_forms, subject, dict_literals, flow_conditions, flows, A, asrc, enum_members, is_self_attr, kwarg, stores, unparse
 from .c12 import renumbering_is_last
 
 FIL = "xsdata.formats.dataclass.filters:Filters"
@@ -77,7 +77,7 @@ def metadata_vocabulary(ctx: Ctx) -> None:
             if isinstance(n, ast.Subscript) and isinstance(n.value, ast.Name) and isinstance(n.slice, ast.Constant) and isinstance(n.ctx, ast.Store):
                 lit.add(n.slice.value)
     clit = set()
-    for n in walk_no_nested(fc.node):
+    for n in [x for f_ in family(ctx.repo, fc) for x in walk_no_nested(f_.node)]:
         if isinstance(n, ast.Dict):
             clit |= {k.value for k in n.keys if isinstance(k, ast.Constant)}
         if isinstance(n, ast.Subscript) and isinstance(n.value, ast.Name) and isinstance(n.ctx, ast.Store):
@@ -147,7 +147,7 @@ def restriction_vocabulary(ctx: Ctx) -> None:
     ctx.ob("Restrictions.from_element = cls(**element.get_restrictions())", ok, at=fe, construct="from_element", msg="restriction construction changed")
     # occurrence tables of attributes (use) equal XSD
     at = ctx.repo.func("xsdata.models.xsd:Attribute.get_restrictions")
-    d = Dispatch(at.node, is_subject=lambda e: unparse(e) == "self.use")
+    d = Dispatch(at.node, is_subject=subject(at.node, "self.use"))
     table = {}
     for key in ("UseType.REQUIRED", "UseType.PROHIBITED", None):
         occ = [x for x in dict_literals(d.under(key)) if "min_occurs" in x]
@@ -270,22 +270,35 @@ def attribute_namespace_agreement(ctx: Ctx) -> None:
     inherit = {k.split(".")[-1] for k in dk.keys if any(i in {n.id for n in dk.under(k)} for i in inh_nodes)} if inh_nodes and not any(i in default_ids for i in inh_nodes) else {"<every kind>"}
     ctx.ob("runtime: only ELEMENT and WILDCARD fields inherit the parent namespace", inherit == {"ELEMENT", "WILDCARD"}, at=rn, construct="runtime inheritance", msg=f"inheriting kinds {sorted(inherit)}")
     fm = ctx.repo.func(f"{FIL}.field_metadata")
-    g = build_cfg(fm.node)
-    nsvar = {x["namespace"] for x in dict_literals(g.stmts()) if "namespace" in x and "type" in x}
-    st = [g.node_of(s) for s, tgt, v in stores(fm.node) if isinstance(tgt, ast.Name) and tgt.id in nsvar and v is not None and unparse(v) == "attr.namespace"]
-    t = [x for x in g.nodes if x.kind == "test" and unparse(x.ast) == "attr.is_attribute"]  # `attr` is a parameter
+    # partial evaluation of field_metadata under "the field is an attribute": the value stored under the "namespace" key
+    def is_attr_flag(t: ast.AST):
+        if isinstance(t, ast.Attribute) and t.attr == "is_attribute" and isinstance(t.value, ast.Name) and t.value.id == "attr":
+            return frozenset(["attribute"]), True
+        return None
+
+    da = Dispatch(fm.node, classify=is_attr_flag)
+    g = da.g
     ok = False
-    if st and t:
-        for tt in t:
-            succ = [m for m, lab in g.succ[tt.id] if lab == "true"]
-            if succ and all(s is not None for s in st) and all(x in [s.id for s in st] or g.must_pass(x, g.exit, [s.id for s in st]) for x in succ):
-                ok = True
+    vals_attr: set[str] = set()
+    for n in da.under("attribute"):
+        if n.kind != "stmt" or n.ast is None:
+            continue
+        for dct in [x for x in ast.walk(n.ast) if isinstance(x, ast.Dict)]:
+            keys = {k.value: v for k, v in zip(dct.keys, dct.values) if isinstance(k, ast.Constant)}
+            if "namespace" in keys and "type" in keys:
+                vals_attr |= {unparse(x) for x in da.values_under(fm, "attribute", n, keys["namespace"])}
+        for st_ in [n.ast] if isinstance(n.ast, ast.Assign) else []:
+            for t_ in st_.targets:
+                if isinstance(t_, ast.Subscript) and isinstance(t_.slice, ast.Constant) and t_.slice.value == "namespace":
+                    vals_attr |= {unparse(x) for x in da.values_under(fm, "attribute", n, st_.value)}
+    ok = vals_attr == {"attr.namespace"}
     ctx.ob("generator: an attribute's namespace is always written (attributes never inherit the class namespace)", ok, at=fm, construct="attribute namespace explicit",
            msg="a qualified attribute in the class's own namespace is emitted without `namespace`: the runtime binds it unqualified and rejects / mis-writes t:lang=\"en\"")
-    fc = ctx.repo.func(f"{FIL}.field_choices")
-    gc = build_cfg(fc.node)
+    fc0 = ctx.repo.func(f"{FIL}.field_choices")
     ok = False
-    for n in gc.stmts():
+    for fc in family(ctx.repo, fc0):
+      gc = build_cfg(fc.node)
+      for n in gc.stmts():
         if n.ast is None or n.kind != "stmt":
             continue
         for dct in [x for x in ast.walk(n.ast) if isinstance(x, ast.Dict)]:
@@ -293,8 +306,8 @@ def attribute_namespace_agreement(ctx: Ctx) -> None:
                 if isinstance(k, ast.Constant) and k.value == "namespace":
                     leaves = [(L(fc, leaf), flow_conditions(fc, n, chain)) for leaf, chain in flows(fc, n, v)]
                     differs = lambda conds, want: any(("_.namespace" in t and "!=" in t and pol == want) or ("_.namespace" in t and "==" in t and "!=" not in t and pol != want) for t, pol in conds)  # noqa: E731
-                    ok = {x for x, _ in leaves} == {"_.namespace", "None"} and all(differs(c, x == "_.namespace") for x, c in leaves)
-    ctx.ob("generator: a choice's namespace is omitted only when equal to the parent namespace (choices are elements / wildcards)", ok, at=fc, construct="choice namespace", msg="choice namespace rule changed")
+                    ok = {x for x, _ in leaves} == {"_.namespace", "None"} and all(differs(c, True) for x, c in leaves if x == "_.namespace")
+    ctx.ob("generator: a choice's namespace is omitted only when equal to the parent namespace (choices are elements / wildcards)", ok, at=fc0, construct="choice namespace", msg="choice namespace rule changed")
     # substitution groups are followed transitively
     cs = ctx.repo.func("xsdata.codegen.handlers.add_attribute_substitutions:AddAttributeSubstitutions.create_substitution")
     ats = [c for c in calls_in(cs.node) if isinstance(c.func, ast.Name) and c.func.id == "AttrType"]
